@@ -922,4 +922,93 @@ example : valEq (.dict [(.num (.float .nan), .num (.int (.small 1)))] none)
     (.dict [(.num (.float .nan), .num (.int (.small 1)))] none) = true := by decide +kernel
 
 
+/-! ## a dictionary's DEFAULT is not part of its identity as a key; memoize keys on the argument TUPLE -/
+
+/-- **key_eq_ignores_default**: key equality, the hasher writes and `==` of a dictionary do not
+look at its default value — `{:0, 1: 1}`, `frequencies([1])` and `{1: 1}` are one key -/
+theorem key_eq_ignores_default (A B : List (Val × Val)) (d d' e e' : Option Val) :
+    totalEq (.dict A d) (.dict B e) = totalEq (.dict A d') (.dict B e') ∧
+    writes (.dict A d) = writes (.dict A d') ∧
+    valEq (.dict A d) (.dict B e) = valEq (.dict A d') (.dict B e') ∧
+    keyHit (.dict A d) (.dict B e) = keyHit (.dict A d') (.dict B e') ∧
+    keyEq (.dict A d) (.dict B e) = keyEq (.dict A d') (.dict B e') :=
+  ⟨rfl, rfl, rfl, rfl, rfl⟩
+
+/-- the default does not matter for being a key either -/
+theorem keyWF_ignores_default (A : List (Val × Val)) (d d' : Option Val) :
+    KeyWF (.dict A d) ↔ KeyWF (.dict A d') := Iff.rfl
+
+/-- memoize: the cache key is the argument tuple; two calls share a cache entry exactly when
+their tuples have the same length and are element-wise `≈` -/
+theorem memo_tuples_collide_iff (q s : List Val) (hq : KeyWF (.list q)) (hs : KeyWF (.list s)) :
+    keyHit (.list q) (.list s) = keyEqList q s := by
+  rw [keyHit_spec_full _ _ hq hs]; rfl
+
+theorem keyEqList_length (q s : List Val) (h : keyEqList q s = true) : q.length = s.length := by
+  induction q generalizing s with
+  | nil => cases s <;> simp_all [keyEqList]
+  | cons x xs ih =>
+    cases s with
+    | nil => simp [keyEqList] at h
+    | cons y ys =>
+      simp only [keyEqList, Bool.and_eq_true] at h
+      simp [ih ys h.2]
+
+theorem totalEqList_length (q s : List Val) (h : totalEqList q s = true) : q.length = s.length := by
+  induction q generalizing s with
+  | nil => cases s <;> simp_all [totalEqList]
+  | cons x xs ih =>
+    cases s with
+    | nil => simp [totalEqList] at h
+    | cons y ys =>
+      simp only [totalEqList, Bool.and_eq_true] at h
+      simp [ih ys h.2]
+
+/-- **distinct tuples never collide**: calls of different arity — `f([1, 2])` vs `f(1, 2)`,
+`f([])` vs `f()` — never share a cache entry, whatever the arguments are -/
+theorem memo_distinct_arity (q s : List Val) (h : q.length ≠ s.length) : keyHit (.list q) (.list s) = false := by
+  cases hk : keyHit (.list q) (.list s) with
+  | false => rfl
+  | true =>
+    have := (keyHit_iff _ _).mp hk
+    simp only [totalEq] at this
+    exact absurd (totalEqList_length q s this.2) h
+
+/-- the unary call with a list and the call with that list's elements are different tuples -/
+theorem memo_list_vs_args (xs : List Val) (h : xs.length ≠ 1) : keyHit (.list [.list xs]) (.list xs) = false :=
+  memo_distinct_arity _ _ (by simpa using fun hh => h hh.symm)
+
+theorem memoCallsLoop_congr {h1 h2 : Val → Val → Bool} {P : Val → Prop}
+    (H : ∀ k e, P k → P e → h1 k e = h2 k e) (calls : List (List Val)) (memo : Entries)
+    (hs : ∀ e ∈ memo, P e.1) (hx : ∀ args ∈ calls, P (.list args)) :
+    memoCallsLoop h1 memo calls = memoCallsLoop h2 memo calls := by
+  induction calls generalizing memo with
+  | nil => rfl
+  | cons args rest ih =>
+    have hP : P (.list args) := hx args (List.mem_cons_self ..)
+    simp only [memoCallsLoop]
+    rw [lookup_congr H memo _ hs hP, insert_congr H memo _ _ hs hP,
+      ih memo hs (fun y hy => hx y (List.mem_cons_of_mem _ hy)),
+      ih _ (insert_keys h2 memo _ _ hs hP) (fun y hy => hx y (List.mem_cons_of_mem _ hy))]
+
+/-- memoize with calls of every arity refines the finite map keyed by `≈`-classes of tuples -/
+theorem memoize_calls_refines (calls : List (List Val)) (h : ∀ args ∈ calls, KeyWF (.list args)) :
+    DictOps.memoizeCalls keyHit calls = DictOps.memoizeCalls DictSpec.hit calls := by
+  simp only [DictOps.memoizeCalls]
+  rw [memoCallsLoop_congr (P := KeyWF) keyHit_spec_full calls [] (by intro e he; cases he) h]
+
+example : keyHit (.list [.list [.num (.int (.small 1)), .num (.int (.small 2))]])
+    (.list [.num (.int (.small 1)), .num (.int (.small 2))]) = false := by decide +kernel
+example : keyHit (.list [.list []]) (.list []) = false := by decide +kernel
+example : keyHit (.list [.num (.int (.small 1)), .num (.int (.small 2))])
+    (.list [.num (.float (.fin 1 0)), .num (.rat 2)]) = true := by decide +kernel
+example : keyHit (.dict [(.num (.int (.small 1)), .num (.int (.small 1)))] (some (.num (.int (.small 0)))))
+    (.dict [(.num (.int (.small 1)), .num (.int (.small 1)))] none) = true := by
+  have hwf : KeyWF (.dict [(.num (.int (.small 1)), .num (.int (.small 1)))] none) := by
+    simp only [KeyWF, KeyWFEntries, NNum.WF, NInt.WF, and_true, List.pairwise_cons, List.not_mem_nil,
+      false_imp_iff, implies_true, List.Pairwise.nil]
+    decide
+  exact impl_isEquiv_full.refl _ hwf
+
+
 end Noulith.C09
